@@ -120,6 +120,21 @@ class Body:
             st.extend(succ[b])
         return seen
 
+    def forward_succ(self):
+        """normal successors without back edges (edges into a dominating block)"""
+        fs = getattr(self, "_fsucc", None)
+        if fs is None:
+            dom = self.dominators()
+            fs = []
+            for b, ss in enumerate(self.normal_succ()):
+                fs.append([s for s in ss if not (b in dom and s in dom[b])])
+            self._fsucc = fs
+        return fs
+
+    def reachable_fwd(self, start, avoid=()):
+        """blocks reachable from start within one loop iteration (no back edges)"""
+        return self.reachable(start, succ=self.forward_succ(), avoid=avoid)
+
     def dominators(self):
         """dom[b] = set of blocks dominating b (normal edges, from entry 0)."""
         if self._dom is None:
